@@ -11,7 +11,14 @@ def c05_surrogate_in_escape():
     return 0 if a == b else 1
 
 
-WITNESSES = {"C05-surrogate-in-escape": c05_surrogate_in_escape}
+def c04_password_colon():
+    from yarl import URL
+    s = "http://u:p:q@h/"
+    print(repr(str(URL(s))))
+    return 0 if str(URL(s)) == s else 1
+
+
+WITNESSES = {"C05-surrogate-in-escape": c05_surrogate_in_escape, "C04-password-colon": c04_password_colon}
 
 if __name__ == "__main__":
     sys.path.insert(0, ".")
